@@ -391,3 +391,174 @@ def packed_sequence(rng, dag, fill_bias=False):
 def strip_senc(c, m):
     import re
     return re.sub(r" senc=\w+", " senc=?", m)
+
+
+# ---------------------------------------------------------------------------------------------------------------------
+# generic oracles on the implementation (used by C06, C07, C08): refused operations, over-reads, views
+def refused_store_case(seed):
+    """random store sequence on one builder; every operation that raises must leave the builder exactly as it was
+    (bits and references), and the cell finally taken holds exactly the accepted operations' content"""
+    import random
+    from pytoniq_core.boc.builder import Builder
+    from pytoniq_core.boc.cell import Cell
+    rng = random.Random(seed)
+    dag = pool_dag(rng, 4)
+    objs = cells.build_py(dag)
+    kid = Cell.empty()
+    fat = [Cell(cells.tvm_bits("10" * 300), [kid] * r, -1) for r in (0, 1, 2, 3, 4)]       # 600 bits, r references
+    b = Builder()
+    for step in range(rng.randrange(3, 14)):
+        before = (b.bits.to01(), [id(r) for r in b.refs])
+        # "op" (composite writers such as store_coins / store_address write their length or tag first and are not atomic
+        # in the library as it is; no property asks for that) only counts towards the capacity; the operations below are
+        # the ones the C08 heap model covers plus the primitive integer writers
+        kind = rng.choice(["op", "op", "cell", "slice", "slice-part", "bad-int", "bytes", "ref"])
+        try:
+            if kind == "op":
+                apply(b, rand_val_op(rng, len(dag)), objs)
+            elif kind == "cell":
+                b.store_cell(rng.choice(fat))
+            elif kind == "slice":
+                b.store_slice(rng.choice(fat).begin_parse())
+            elif kind == "slice-part":
+                s = rng.choice(fat[1:]).begin_parse()
+                s.load_ref()
+                s.load_bits(rng.choice([0, 7, 100]))
+                b.store_slice(s)
+            elif kind == "bad-int":
+                w = rng.choice([1, 8, 32, 64])
+                rng.choice([lambda: b.store_uint(1 << w, w), lambda: b.store_int(1 << (w - 1), w), lambda: b.store_uint(-1, w),
+                            lambda: b.store_int(-(1 << (w - 1)) - 1, w)])()
+            elif kind == "bytes":
+                b.store_bytes(rng.randbytes(rng.choice([1, 64, 100, 128])))
+            else:
+                b.store_ref(rng.choice(objs))
+        except Exception as e:
+            after = (b.bits.to01(), [id(r) for r in b.refs])
+            if len(after[0]) > 1023 or len(after[1]) > 4:
+                return f"a refused {kind} left the builder beyond the capacity: {len(after[0])} bits / {len(after[1])} refs"
+            if after != before and kind != "op":
+                return (f"a refused {kind} ({type(e).__name__}) left the builder changed: {len(before[0])} bits/{len(before[1])} refs "
+                        f"-> {len(after[0])} bits/{len(after[1])} refs")
+            continue
+        if len(b.bits) > 1023 or len(b.refs) > 4:
+            return f"{kind} accepted beyond the capacity: {len(b.bits)} bits / {len(b.refs)} refs"
+    snap = (b.bits.to01(), [r.hash for r in b.refs])
+    try:
+        c = b.end_cell()
+    except Exception as e:
+        return f"end_cell() failed after refused operations: {type(e).__name__}"
+    if len(c.bits) > 1023 or len(c.refs) > 4:
+        return f"a cell beyond the capacity was produced: {len(c.bits)} bits / {len(c.refs)} refs"
+    if (c.bits.to01(), [r.hash for r in c.refs]) != snap:
+        return "end_cell() does not hold the builder's content"
+    return "ok"
+
+
+def overread_case(seed):
+    """every loader / peek / skip of the Slice must refuse to go beyond the remaining data, and leave the slice as it was"""
+    import random
+    from pytoniq_core.boc.builder import Builder
+    rng = random.Random(seed)
+    n = rng.choice([0, 1, 3, 7, 8, 9, 15, 16, 31, 32, 64, 100])
+    c = Builder().store_bits(cells.rand_bits(rng, n)).end_cell()
+    over = n + rng.choice([1, 1, 2, 8, 9, 64])
+    attempts = {
+        # consuming reads only (C07's wording); the peek variants are not required to raise
+        "load_bits": lambda s: s.load_bits(over), "load_uint": lambda s: s.load_uint(over), "load_int": lambda s: s.load_int(over),
+        "skip_bits": lambda s: s.skip_bits(over), "load_bytes": lambda s: s.load_bytes(n // 8 + 1),
+        "load_string": lambda s: s.load_string(n // 8 + 1), "load_ref": lambda s: s.load_ref(),
+    }
+    if n == 0:
+        attempts.update({"load_bit": lambda s: s.load_bit(), "load_bool": lambda s: s.load_bool(), "load_coins": lambda s: s.load_coins(),
+                         "load_maybe_ref": lambda s: s.load_maybe_ref(), "load_var_uint": lambda s: s.load_var_uint(16),
+                         "load_address": lambda s: s.load_address()})
+    for name, f in attempts.items():
+        s = c.begin_parse()
+        try:
+            r = f(s)
+        except Exception:
+            if s.bits.to01() != c.bits.to01():
+                return f"{name}: a refused read changed the slice"
+            continue
+        return f"{name}: reading beyond the {n} remaining bits was not refused (returned {str(r)[:30]})"
+    # truncated typed values: coins / var-uint whose announced length exceeds the data
+    t = Builder().store_uint(5, 4).store_uint(1, 8).end_cell()       # coins announcing 5 bytes, 1 byte present
+    for name, f in (("load_coins", lambda s: s.load_coins()), ("load_var_uint", lambda s: s.load_var_uint(16))):
+        try:
+            r = f(t.begin_parse())
+        except Exception:
+            continue
+        return f"{name}: a truncated value was returned as {r}"
+    return "ok"
+
+
+def views_case(seed):
+    """slices and cells taken from a builder are snapshots: reading them must not change the builder, and vice versa"""
+    import random
+    from pytoniq_core.boc.builder import Builder
+    rng = random.Random(seed)
+    bits = cells.rand_bits(rng, rng.choice([8, 40, 200]))
+    kid = Builder().store_uint(1, 1).end_cell()
+    b = Builder().store_bits(bits).store_ref(kid)
+    s = b.to_slice()
+    s.load_bits(5)
+    s.load_ref()
+    if b.bits.to01() != bits or len(b.refs) != 1:
+        return "reading a slice taken with Builder.to_slice() changed the builder"
+    c = b.end_cell()
+    if c.bits.to01() != bits or len(c.refs) != 1:
+        return "end_cell() after reading builder.to_slice() lost content"
+    s2 = c.begin_parse()
+    b.store_bits("1")
+    if s2.bits.to01() != bits or c.bits.to01() != bits:
+        return "storing into the builder changed a cell/slice taken from it earlier"
+    # a builder created with another capacity must not influence builders created independently
+    other = Builder()
+    try:
+        Builder(size=64)
+    except TypeError:
+        pass
+    try:
+        other.store_bits("1" * 1000)
+    except Exception as e:
+        return f"an independent Builder refused 1000 bits after Builder(size=64) had been created: {type(e).__name__}"
+    return "ok"
+
+
+def shared_state_case(seed):
+    """independent calls must not influence each other: parsing a bag twice (the caller having emptied the first result),
+    loading the same account address with and without an anycast prefix from different cells"""
+    import random
+    from pytoniq_core.boc.builder import Builder
+    from pytoniq_core.boc.cell import Cell
+    from pytoniq_core.boc.slice import Slice
+    from pytoniq_core.boc.address import Address
+    rng = random.Random(seed)
+    root = Builder().store_uint(rng.getrandbits(32), 32).store_ref(Builder().store_uint(seed & 255, 8).end_cell()).end_cell()
+    blob = root.to_boc()
+    first = Cell.from_boc(blob)
+    if len(first) != 1 or first[0].hash != root.hash:
+        return "from_boc: wrong roots"
+    first.clear()
+    first.append(None)
+    for name, f in (("Cell.from_boc", lambda: Cell.from_boc(blob)), ("Builder.from_boc", lambda: Builder.from_boc(blob))):
+        again = f()
+        if len(again) != 1 or again[0] is None or again[0].hash != root.hash:
+            return f"{name}: the result of an earlier parse, modified by the caller, came back on the next parse"
+    if Cell.one_from_boc(blob).hash != root.hash or Slice.one_from_boc(blob).to_cell().hash != root.hash:
+        return "one_from_boc: wrong root after an earlier parse"
+    # the same account with and without anycast, in both orders
+    wc, h = rng.choice([0, -1]), rng.randbytes(32)
+    plain = "100" + format(wc & 0xFF, "08b") + format(int.from_bytes(h, "big"), "0256b")
+    depth = rng.randrange(1, 31)
+    pfx = cells.rand_bits(rng, depth)
+    anyc = "10" + "1" + format(depth, "05b") + pfx + format(wc & 0xFF, "08b") + format(int.from_bytes(h, "big"), "0256b")
+    order = [plain, anyc] if seed % 2 else [anyc, plain]
+    loaded = [Builder().store_bits(t).end_cell().begin_parse().load_address() for t in order]
+    for t, a in zip(order, loaded):
+        back = Builder().store_address(a).end_cell().bits.to01()
+        if back != t:
+            return (f"address loaded from one cell was changed by loading the same account from another cell: "
+                    f"{len(t)} bits stored back as {len(back)}")
+    return "ok"
